@@ -143,9 +143,9 @@ def run_batch(ctx, exe, model, progs, st):
         st.instrs += c["n_instr"]
         fs = g2.features(c["sheet_ast"])
         for f in fs:
-            if any(k in f for k in g2.NEW):
+            if any(k in f for k in g2.NEW) or f.startswith(("attribute-set", "toplevel")):
                 ctx.count("core2:feature:" + f)
-        st.pairs |= set(f for f in fs if any(k in f for k in g2.NEW))
+        st.pairs |= set(f for f in fs if any(k in f for k in g2.NEW) or f.startswith(("attribute-set", "toplevel")))
         for f in c["flags"]:
             ctx.count("core2:recovered:" + f)
         if len(st.samples) < 3 and c["n_instr"] < 25 and any(k in c["sheet"] for k in ("xsl:comment", "xsl:processing-instruction")):
@@ -272,7 +272,7 @@ def run_part(ctx):
     if not ok_lib:
         ctx.broken.append("core2: library does not build from the working tree: " + liblog[-500:])
         return
-    proved = ctx.prove(["Properties_C01core2.v", "Properties_C01core3.v"], ["GenXsltCore2", "GenXsltCore3"])
+    proved = ctx.prove(["Properties_C01core2.v", "Properties_C01core3.v", "Properties_C01core4.v"], ["GenXsltCore2", "GenXsltCore3", "GenXsltCore4"])
     model, ok_m, mlog = g2.build_driver()
     if not ok_m:
         ctx.broken.append("core2: model extraction/build failed: " + mlog[-500:])
